@@ -66,7 +66,7 @@ def _case(draw):
     elif kind == "when_stop":
         ctl = ["->", c, ["f", "stop", [], []]]
     elif kind == "fail_and_stop":
-        ctl = ["->", c, ["f", "fail_and_stop", [], []]]
+        ctl = ["->", c, ["f", "fail_and_stop", [], []]] if draw(st.booleans()) else ["f", "fail_and_stop", [], [c]]
     elif kind == "skip":
         ctl = ["->", c, ["f", "skip", [], []]] if draw(st.booleans()) else ["f", "skip", [], [c]]
     elif kind == "skip_c":
